@@ -901,7 +901,14 @@ class VmapBatchHandler:
 
         # Create new sampler with updated sample shape
         new_config = self.config.with_sample_shape(new_sample_shape)
-        result = create_sample_primitive(new_config)(*vector_args)
+        if params.get("yes_kwargs"):
+            # keyword parameters were flattened in key order: rebuild them by name
+            args, kwargs = jtu.tree_unflatten(
+                params["in_tree"], vector_args[params["num_consts"] :]
+            )
+            result = create_sample_primitive(new_config)(*args, **kwargs)
+        else:
+            result = create_sample_primitive(new_config)(*vector_args)
 
         # Return with appropriate output axes: batched parameters put the lane
         # axis after the site's own sample_shape, an added sample dimension first
